@@ -13,15 +13,15 @@ ID = 'C05'
 LEVEL = 'exploration'
 TECHNIQUE = ('runtime monitoring: brute-force / independent-DP oracle on every execution of force_align, recorder on the alignment used by '
              'align_text, numba bounds-checking sanitizer (NUMBA_BOUNDSCHECK=1) and JIT-vs-interpreter differential')
-RULE = ('cost matrices T(1-40) x C(2-8), any blank index, labels of length 1..T+1 incl. immediate repeats; classes: continuous, small-integer '
+RULE = ('cost matrices T(1-40, float32 up to 400) x C(2-8), float64 and float32 (as the networks deliver them, with and without a large common offset), any blank index, labels of length 1..T+1 incl. immediate repeats; classes: continuous, small-integer '
         '(ties), with +inf entries, at the feasibility boundary T = L + repeats (+-1), small (brute force over all C^T labellings), blank among '
         'labels. non-trivial = a finite-cost alignment exists and T > L (some freedom); distinct = hash of (matrix, labels, blank)')
 ASSUMPTIONS = ['"no alignment exists" is read as "no alignment of finite total cost" (subsumes too few frames and blank among labels)',
                'failure must be reported as ValueError (the documented exception)',
                'ties: any optimal alignment is accepted (costs are compared, not paths)']
 N = {'quick': 4000, 'thorough': 150000}
-CLASSES = ['continuous', 'integer_ties', 'with_inf', 'boundary', 'small_brute', 'small_brute_inf', 'blank_in_labels', 'long']
-REQUIRED = ['feasible_checked', 'infeasible_checked', 'brute_checked', 'align_text_checked', 'nojit_compared']
+CLASSES = ['continuous', 'integer_ties', 'with_inf', 'boundary', 'small_brute', 'small_brute_inf', 'blank_in_labels', 'long', 'float32', 'float32_long']
+REQUIRED = ['float32_matrices', 'feasible_checked', 'infeasible_checked', 'brute_checked', 'align_text_checked', 'nojit_compared']
 TIMEOUT = {'quick': 900, 'thorough': 7200}
 
 
@@ -37,14 +37,14 @@ def gen(rng, i, ctx=None):
     cls = CLASSES[i % len(CLASSES)]
     small = cls.startswith('small')
     C = int(rng.integers(2, 5 if small else 9))
-    T = int(rng.integers(1, 7 if small else (41 if cls == 'long' else 16)))
+    T = int(rng.integers(1, 7 if small else (41 if cls in ('long', 'float32') else (401 if cls == 'float32_long' else 16))))
     if small:
         while C ** T > 5000:
             T -= 1
     blank = int(rng.integers(0, C))
     nonblank = [c for c in range(C) if c != blank]
     L = int(rng.integers(1, T + 2))
-    if cls == 'long':
+    if cls in ('long', 'float32', 'float32_long'):
         L = int(rng.integers(1, max(2, T // 2)))
     labels = [int(rng.choice(nonblank)) for _ in range(L)]
     if rng.random() < 0.4:
@@ -62,6 +62,9 @@ def gen(rng, i, ctx=None):
         cost = -np.log(rng.dirichlet(np.ones(C) * float(rng.choice([0.1, 1.0, 10.0])), size=T) + 1e-300)
     if cls in ('with_inf', 'small_brute_inf'):
         cost[rng.random((T, C)) < float(rng.choice([0.1, 0.3, 0.6]))] = np.inf
+    if cls.startswith('float32'):
+        # what the networks deliver: float32 negative log-probabilities, possibly with a large common offset
+        cost = (cost + float(rng.choice([0.0, 0.0, 50.0, 500.0]))).astype(np.float32)
     return {'cost': cost, 'labels': labels, 'blank': blank, 'cls': cls}
 
 
@@ -82,7 +85,9 @@ def check(case, mon, ctx):
     fa = ctx.fa
     cost, labels, blank = case['cost'], case['labels'], case['blank']
     T = cost.shape[0]
-    rows = cost.tolist()
+    rows = cost.astype(np.float64).tolist()
+    if cost.dtype == np.float32:
+        mon.count('float32_matrices')
     opt = min_cost_dp(rows, labels, blank)
     brute = min_cost_brute(rows, labels, blank, limit=5000)
     if brute is not None:
@@ -110,8 +115,8 @@ def check(case, mon, ctx):
     if collapse(al, blank) != [int(x) for x in labels]:
         mon.violation('collapses-to-labels', {'alignment': al})
         return
-    c = float(sum(cost[t, a] for t, a in enumerate(al)))
-    if not (c <= opt + 1e-9):
+    c = float(sum(float(cost[t, a]) for t, a in enumerate(al)))
+    if not (c <= opt + 1e-9 * max(1.0, abs(opt))):
         mon.violation('minimal-cost', {'alignment': al, 'cost': c, 'optimal': opt})
     # positions variant must describe the same path
     status2, pos = run_force_align(fa, cost, labels, blank, return_seq_positions=True)
